@@ -74,6 +74,7 @@ S["C16"] = dict(title="A damaged Persistence never bricks the session: adopt, wa
   bounds={"quick":"<= 2 records per run (<= 6 outbound), 1 damaged, 3 damage kinds, stray entries, ring positions and storage sequence numbers free","thorough":"2 damaged records"},
   outside=["more than 2 damaged records at once","damage to inbound markers (F11 covers the client-identifier record; the marker case shares its code path)"])
 S["C03"] = dict(title="Exactly-once publish: no PUBLISH after recorded PUBREC; PUBREL until PUBCOMP", technique=TECH+"; one-step lemmas from INV states plus a composition PUBREC -> reconnect -> restart -> PUBCOMP -> publish", harnesses=[
+    _accept,
     H("verifH_C03_cycle", "PUBREC (with store/write faults) -> resend in the same process -> AdoptSession -> resend -> PUBCOMP -> new publish", T({"W":1,"wfaults":1,"storefaults":1}), T({"W":2,"wfaults":2,"storefaults":1}, time_sec=1500), ("recorded","not-recorded","completed")),
     _ack, _resend,
     H("verifH_C17_ring", "L03.c identifier not reused while fewer than 0x4000 in flight (all wrap positions)"),
